@@ -467,7 +467,7 @@ func buildField(ww *conversionVisitor, node sourcewalk.FieldNode) (*descriptorpb
 				}
 
 				if st.Integer.Rules.Maximum != nil {
-					if st.Integer.Rules.ExclusiveMaximum != nil {
+					if !st.Integer.Rules.GetExclusiveMaximum() {
 						rules.GetInt32().LessThan = &validate.Int32Rules_Lte{
 							Lte: int32(*st.Integer.Rules.Maximum),
 						}
@@ -479,7 +479,7 @@ func buildField(ww *conversionVisitor, node sourcewalk.FieldNode) (*descriptorpb
 				}
 
 				if st.Integer.Rules.Minimum != nil {
-					if st.Integer.Rules.ExclusiveMinimum != nil {
+					if !st.Integer.Rules.GetExclusiveMinimum() {
 						rules.GetInt32().GreaterThan = &validate.Int32Rules_Gte{
 							Gte: int32(*st.Integer.Rules.Minimum),
 						}
@@ -496,7 +496,7 @@ func buildField(ww *conversionVisitor, node sourcewalk.FieldNode) (*descriptorpb
 				}
 
 				if st.Integer.Rules.Maximum != nil {
-					if st.Integer.Rules.ExclusiveMaximum != nil {
+					if !st.Integer.Rules.GetExclusiveMaximum() {
 						rules.GetInt64().LessThan = &validate.Int64Rules_Lte{
 							Lte: *st.Integer.Rules.Maximum,
 						}
@@ -508,7 +508,7 @@ func buildField(ww *conversionVisitor, node sourcewalk.FieldNode) (*descriptorpb
 				}
 
 				if st.Integer.Rules.Minimum != nil {
-					if st.Integer.Rules.ExclusiveMinimum != nil {
+					if !st.Integer.Rules.GetExclusiveMinimum() {
 						rules.GetInt64().GreaterThan = &validate.Int64Rules_Gte{
 							Gte: *st.Integer.Rules.Minimum,
 						}
@@ -525,7 +525,7 @@ func buildField(ww *conversionVisitor, node sourcewalk.FieldNode) (*descriptorpb
 				}
 
 				if st.Integer.Rules.Maximum != nil {
-					if st.Integer.Rules.ExclusiveMaximum != nil {
+					if !st.Integer.Rules.GetExclusiveMaximum() {
 						rules.GetUint32().LessThan = &validate.UInt32Rules_Lte{
 							Lte: uint32(*st.Integer.Rules.Maximum),
 						}
@@ -537,7 +537,7 @@ func buildField(ww *conversionVisitor, node sourcewalk.FieldNode) (*descriptorpb
 				}
 
 				if st.Integer.Rules.Minimum != nil {
-					if st.Integer.Rules.ExclusiveMinimum != nil {
+					if !st.Integer.Rules.GetExclusiveMinimum() {
 						rules.GetUint32().GreaterThan = &validate.UInt32Rules_Gte{
 							Gte: uint32(*st.Integer.Rules.Minimum),
 						}
@@ -554,7 +554,7 @@ func buildField(ww *conversionVisitor, node sourcewalk.FieldNode) (*descriptorpb
 				}
 
 				if st.Integer.Rules.Maximum != nil {
-					if st.Integer.Rules.ExclusiveMaximum != nil {
+					if !st.Integer.Rules.GetExclusiveMaximum() {
 						rules.GetUint64().LessThan = &validate.UInt64Rules_Lte{
 							Lte: uint64(*st.Integer.Rules.Maximum),
 						}
@@ -566,7 +566,7 @@ func buildField(ww *conversionVisitor, node sourcewalk.FieldNode) (*descriptorpb
 				}
 
 				if st.Integer.Rules.Minimum != nil {
-					if st.Integer.Rules.ExclusiveMinimum != nil {
+					if !st.Integer.Rules.GetExclusiveMinimum() {
 						rules.GetUint64().GreaterThan = &validate.UInt64Rules_Gte{
 							Gte: uint64(*st.Integer.Rules.Minimum),
 						}
